@@ -74,6 +74,7 @@ def rho_matrix(chroms):
     return M
 
 
+_UC_ENC = itertools.count()
 _TABLE_MODE = {"2w": itertools.count(1), "3w": itertools.count(2)}
 
 
@@ -280,7 +281,28 @@ def uc_case(cid, rng, s, scheme="2w"):
             xmap = UC._calc_xmap(n, K, rng.random() < 0.5 and n >= K)
             if len(xmap) > 24:
                 xmap = np.asarray(xmap)[sorted(rng.sample(range(len(xmap)), 24))]
-            uc = np.asarray(UC._calc_uc(F(), 1, 10, s, HaldaneMapFunction(), inten, pg, gm, xmap), dtype=float)
+            enc = ["Real", "helper", "Subset", "Integer", "Binary", "Real"][next(_UC_ENC) % 6]
+            if enc == "helper":
+                uc = np.asarray(UC._calc_uc(F(), 1, 10, s, HaldaneMapFunction(), inten, pg, gm, xmap), dtype=float)
+            else:
+                # the usefulness criteria HELD BY A PROBLEM built through the factory of each decision encoding (each class hands the
+                # progeny number and the selfing depth on by itself); intensity from the upper percentile
+                import scipy.stats
+                pct = rng.choice([0.1, 0.25, 0.5]); inten = float(scipy.stats.norm.pdf(scipy.stats.norm.ppf(1.0 - pct)) / pct)
+                uniq = rng.random() < 0.5 and n >= K
+                nx = len(UC._calc_xmap(n, K, uniq))
+                Pcls = getattr(importlib.import_module("pybrops.breed.prot.sel.prob.UsefulnessCriterionSelectionProblem"),
+                               "UsefulnessCriterion%sMateSelectionProblem" % enc)
+                if enc == "Subset":
+                    sp = dict(ndecn=1, decn_space=np.arange(nx), decn_space_lower=np.repeat(0, 1), decn_space_upper=np.repeat(nx - 1, 1))
+                else:
+                    lo = np.repeat(0.0 if enc == "Real" else 0, nx); up = np.repeat({"Real": 1.0, "Integer": 3, "Binary": 1}[enc], nx)
+                    sp = dict(ndecn=nx, decn_space=np.stack([lo, up]), decn_space_lower=lo, decn_space_upper=up)
+                pr = Pcls.from_pgmat_gpmod(K, 1, 10, s, pct, F(), HaldaneMapFunction(), uniq, pg, gm, nobj=T, **sp)
+                uc = np.asarray(pr.ucmat, dtype=float); xmap = np.asarray(pr.decn_space_xmap)
+                if len(xmap) > 24:
+                    keep_ = sorted(rng.sample(range(len(xmap)), 24)); xmap = xmap[keep_]; uc = uc[keep_]
+                c["cls"] = "UsefulnessCriterion%sMateSelectionProblem.from_pgmat_gpmod[%s]" % (enc, scheme)
             bv = np.asarray(gm.gebv(pg).unscale(), dtype=float)
             ok = True; ents = []
             for k, par in enumerate(np.asarray(xmap).tolist()):
